@@ -46,7 +46,7 @@ type oAnalysis struct {
 	implCache    map[string][]*ssa.Function
 }
 
-func newOAnalysis(p *load.Program) *oAnalysis {
+func NewOAnalysis(p *load.Program) *oAnalysis {
 	a := &oAnalysis{p: p, prog: p.SSA(), returnsParam: map[*ssa.Function]map[int]map[int]bool{}, retains: map[*ssa.Function]map[int]string{}, writes: map[*ssa.Function]map[int]string{}, poolRet: map[*ssa.Function]map[int]string{}, implCache: map[string][]*ssa.Function{}}
 	for _, fn := range p.ModuleFuncs() {
 		if fn.Pkg != nil && fn.Pkg.Pkg.Path() == load.Module {
@@ -474,7 +474,7 @@ var o3Except = map[string]string{
 // O123 reports retention (O2), mutation (O3) and recycling (O1) of caller-owned metadata
 // slices by exported functions.
 func O123(rc *RC) *oAnalysis {
-	a := newOAnalysis(rc.P)
+	a := NewOAnalysis(rc.P)
 	rc.S.Declare("O2", "no exported function stores a caller's []int/Shape/[]Slice/[]bool argument (or a sub-slice) into an object that outlives the call (documented sharing is an explicit exception table)", 80)
 	rc.S.Declare("O3", "no exported function writes through, sorts or copies into a caller's metadata slice argument", 80)
 	rc.S.Declare("O1", "no exported function hands a caller's metadata slice argument to the ints/bools pool", 80)
